@@ -261,9 +261,33 @@ func (f *Frame) appendBuiltin(bi *BInfo, s, xs T) T {
 	st := bi.out
 	if xs.Sort != "Slice" {
 		// append([]byte, string...)
-		g.note("append of a string to a byte slice is not modelled (havoc)")
-		c := g.freshConst("appended", "Slice")
-		return mk(c, "Slice", s.GT)
+		// the appended bytes are not modelled (unconstrained), the storage effect is: with room the
+		// bytes land in s's own array behind its length - a write into storage the caller may share
+		// (frame obligation) -, otherwise in a new array that starts with a copy of s
+		g.note("append of a string to a byte slice: the appended bytes are unconstrained, the in-place / reallocate split is modelled")
+		elem := s.GT.Underlying().(*types.Slice).Elem()
+		arr, es := g.elemsArr(elem)
+		a := g.arr(st, arr, es)
+		n := g.freshConst("strlen:append", "Int")
+		g.assert(sLe("0", n))
+		newLen := sAdd(slLen(s.S), n)
+		room := sLe(newLen, slCap(s.S))
+		fresh := g.allocRef(st, "new:append:"+f.tag)
+		capF := g.freshConst("cap:append", "Int")
+		g.assert(sLe(newLen, capF))
+		res := g.freshConst("app:"+f.tag, "Slice")
+		g.assert(sEq(res, sIte(room,
+			mkSlice(slBase(s.S), slOff(s.S), newLen, slCap(s.S)),
+			mkSlice(fresh, "0", newLen, capF))))
+		f.frameCheckIf(bi, sAnd(room, sLt("0", n)), arr, slBase(s.S), "append of a string in place")
+		k := "k!a"
+		start := sAdd(slOff(s.S), slLen(s.S))
+		inpl := g.freshConst("inpl:"+arr, es)
+		g.assert(sForall(k, sImp(sNot(sAnd(sLe(start, k), sLt(k, sAdd(start, n)))), sEq(sel(inpl, k), sel(sel(a, slBase(s.S)), k)))))
+		re := g.freshConst("realloc:"+arr, es)
+		g.assert(sForall(k, sImp(sAnd(sLe("0", k), sLt(k, slLen(s.S))), sEq(sel(re, k), g.viewRead(sel(a, slBase(s.S)), es, slOff(s.S), k)))))
+		g.setArr(st, arr, es, sIte(room, sto(a, slBase(s.S), inpl), sto(a, fresh, re)))
+		return mk(res, "Slice", s.GT)
 	}
 	elem := s.GT.Underlying().(*types.Slice).Elem()
 	arr, es := g.elemsArr(elem)
